@@ -21,7 +21,11 @@ FOREIGN_NAMES = ["notes.txt", "cachefile_keepme", "keepme_cachefile", "sub/cache
                  "@k0.bak", "@k1.bak", "@k2~", "old-@k0", "@k1.orig", "sub/@k0", "backup_@k2.tar",
                  "cachefile_0123456789abcdef0123456789abcdef_cachefile.bak",
                  # other programs' unfinished downloads / temporaries living in the same directory
-                 "backup.tar.part", "movie.mkv.part", "data.tmp", ".hidden", "dl-user.tmp"]
+                 "backup.tar.part", "movie.mkv.part", "data.tmp", ".hidden", "dl-user.tmp",
+                 # symbolic links: a cache entry pre-seeded as a link to the user's own copy of the object; the user's
+                 # own links pointing at a cache file, at nothing, at a sub directory
+                 "linkentry:@k0", "linkentry:@k1", "linkentry:@k2", "link:latest:@k0", "link:current.bin:@k1",
+                 "link:dangling:nowhere.bin", "link:cachefile_link_cachefile.lnk:@k0"]
 
 
 def wchoice(rng, pairs):
@@ -174,6 +178,7 @@ def gen_knobs(rng, prop, profile):
         "wide": wide,
         "fine_grained": bool(profile.get("fine_grained", False)) or (big and rng.random() < 0.04),
         "http_gzip": rng.random() < 0.4,  # does the simulated http server gzip-encode bodies (Content-Encoding)?
+        "cache_dir_link": rng.random() < 0.07,  # the cache directory is a symbolic link to a directory elsewhere
         "http_no_length": rng.random() < 0.3,  # ... and does it stream without announcing a Content-Length?
     }
 
@@ -258,6 +263,9 @@ def gen_ops(rng, prop, knobs, profile):
         elif kind == "VALIDATOR":
             op["mode"] = rng.choice(["accept", "current"])
         ops.append(op)
+        if kind == "FOREIGN" and op["name"].startswith("linkentry:"):
+            # the cache is pre-seeded between two processes: the next thing that happens is a (re)open
+            ops.append({"id": n + 300 + i, "op": "REOPEN", "dt": 1000, "size": None, "evict": rng.random() < 0.3})
         if kind == "EDIT_CONFIG" and rng.random() < 0.85:
             # the edit takes effect when the cache is opened again
             ops.append({"id": n + 100 + i, "op": "REOPEN", "dt": 1000, "size": None, "evict": rng.random() < 0.6})
